@@ -34,8 +34,11 @@ func anyKeys() keyKit[any] {
 	i := 0
 	return keyKit[any]{func(n string) any {
 		i++
-		if i%2 == 0 {
+		switch i % 3 {
+		case 2:
 			return vf.String(n, 1)
+		case 0:
+			return vf.Int64(n) // may carry the same number as an int key: a different key all the same
 		}
 		return vf.Int(n)
 	}, anyEq}
